@@ -12,7 +12,7 @@ Definition CInv (c : cst) : Prop := Inv (cur c) /\ Forall Inv (saved c).
 
 (* inside a block only what cobrapy documents / implements as reverted by a context *)
 Definition reversible (o : op) : bool :=
-  match o with RemoveRxn _ _ | RemoveMet _ _ | RemoveGenes _ _ => true | _ => false end.
+  match o with RemoveRxn _ _ | RemoveMet _ _ | RemoveGenes _ _ | SetBounds _ _ _ => true | _ => false end.
 Definition cop_ok (c : cst) (o : cop) : Prop :=
   match o with
   | Do o => op_ok (cur c) o /\ (saved c <> [] -> reversible o = true)
